@@ -65,12 +65,18 @@ HPU = unw(2, 2, 2, 1, 'hp')
 UNIT = dict(
   title='hazard_pointer / hazard_eras reclaim side: add_retired_node, scan, gather, reclaim_nodes, ~thread_data, retire trigger (C01 reclaim side, C02, C17)',
   properties=['C01', 'C02', 'C17'],
-  drops='templates; static allocation strategy (K slots per control block; the dynamic strategy\'s extra blocks are not covered); a control block is '
-        'struct tcb = entry part + K slot words; marked_ptr<void*,1> slot words are uintptr_t with the contract mark()/get() of unit mp; node addresses are '
-        'ghost words (distinct, non-null, mark bit clear) so that ordering/equality of pointers is that of arbitrary words; std::vector is a bounded '
-        'array (capacity E*K) with begin/end as element pointers; std::for_each is rewritten to the loop that defines it (unit-local rule, uses the '
-        'real lowered iterator operators); std::sort / std::binary_search / std::lower_bound / std::unique are stubs implementing exactly their '
-        'standard contracts (binary_search/lower_bound on an unsorted range return an arbitrary result); delete_self is the contract stub of unit rlist',
+  drops='templates; a control block is struct tcb = entry part + K slot words (+ total_number_of_hps / hp_block for the dynamic strategy, whose extra '
+        'blocks are only covered for the active-slot counter, not for gathering); marked_ptr<void*,1> slot words are uintptr_t with the mark()/get() contract '
+        'of unit mp; node addresses are ghost words (distinct, non-null, mark bit clear), so ordering/equality of pointers is that of arbitrary words; nodes '
+        'and entries are separate objects, WLOG linked in pool order (addresses of nodes/entries are never compared by the code except through the ghost words); '
+        'std::for_each is rewritten to the loop that defines it (unit-local rule for_each_rule; the loop uses the real lowered iterator operators). '
+        'MODULAR STRUCTURE: (1) runs *_gather and *_reclaim verify the real text of gather_protected_* / try_get_* and of reclaim_nodes against a CONCRETE '
+        'std::vector model (bounded array, begin/end are element pointers; std::binary_search / std::lower_bound stubs implement their standard contracts and '
+        'return an arbitrary result on an unsorted range); (2) runs *_scan / *_scan_int / *_dtor verify the real text of scan / ~thread_data / the for_each '
+        'loop / is_active / iterator / adopt / abandon / release_entry with gather and reclaim_nodes replaced by the contracts proved in (1) and an ABSTRACT '
+        'vector: the abstraction function maps a vector to the SET of its elements (represented per contributing slot cell), iterators are tags, std::sort '
+        'keeps the set and makes it sorted, std::unique+erase keep the set (a unique without erase leaves the vector unusable); (3) runs *_whole run '
+        'everything real in one piece on a small shape as a cross-check of the composition. delete_self is the contract stub of unit rlist.',
   assumptions=['std::sort yields the sorted permutation; std::binary_search(b,e,k) <=> k in [b,e) for a sorted range; std::lower_bound = first element >= key of a sorted range; '
                'std::unique removes consecutive duplicates and returns the new end; vector::erase(last,end) truncates; vector::reserve/push_back do not throw',
                'marked_ptr<void*,1>: mark() = top bit, get() = word without the top bit (unit mp)',
